@@ -194,9 +194,46 @@ func (c *c17) deliver(ch *kernel.Chooser) string {
 	variant := "honest"
 	var cookies []*http.Cookie // nil: use the browser's jar
 	useJar := true
-	x := ch.Int(16)
+	x := ch.Int(18)
 	switch {
 	case x < 5:
+	case x >= 16: // the state parameter is another spelling of the cookie's state: equal only after a further decoding step
+		variant = "respelled-state-param"
+		u, _ := url.Parse(cbURL)
+		q := u.Query()
+		st := a.state
+		re := st
+		switch ch.Int(5) {
+		case 0: // every byte percent-encoded (arrives at the handler as the literal %XX text)
+			var sb strings.Builder
+			for i := 0; i < len(st); i++ {
+				fmt.Fprintf(&sb, "%%%02X", st[i])
+			}
+			re = sb.String()
+		case 1: // one character percent-encoded
+			if len(st) > 0 {
+				i := ch.Int(len(st))
+				re = st[:i] + fmt.Sprintf("%%%02x", st[i]) + st[i+1:]
+			}
+		case 2:
+			re = url.QueryEscape(st)
+			if re == st {
+				re = strings.ReplaceAll(st, "-", "%2D")
+			}
+		case 3:
+			re = strings.ToUpper(st)
+			if re == st {
+				re = strings.ToLower(st)
+			}
+		default:
+			re = st + "+"
+		}
+		if re == st {
+			re = st + "%20"
+		}
+		q.Set("state", re)
+		u.RawQuery = q.Encode()
+		cbURL = u.String()
 	case x == 5:
 		variant, useJar = "no-cookies", false
 	case x == 6: // cookies minted by another RP instance (other keys) for the right names and values
